@@ -325,13 +325,32 @@ class LocationTable:
 
         Temporarily solution following ETSI EN 302 636-4-1 V1.4.1 (2020-01). Section 8.1.3
         """
-        current_time = TST.set_in_normal_timestamp_seconds(
-            int(TimeService.time()))
+        current_time = TST.set_in_normal_timestamp_milliseconds(
+            round(TimeService.time() * 1000))
+        lifetime_ms = self.mib.itsGnLifetimeLocTE * 1000
+        # An entry that has not received a PV yet (placeholder created by the Location Service) has
+        # no position timestamp to age: it is kept exactly while its LS is pending.
         with self.loc_t_lock:
             self.loc_t = {
                 gn: entry for gn, entry in self.loc_t.items()
-                if (current_time - entry.position_vector.tst) <= self.mib.itsGnLifetimeLocTE * 1000
+                if (
+                    entry.ls_pending if entry.position_vector is _NO_POSITION_VECTOR
+                    else LocationTable._age_ms(current_time, entry.position_vector.tst) <= lifetime_ms
+                )
             }
+
+    @staticmethod
+    def _age_ms(current_time: TST, tst: TST) -> int:
+        """
+        Age in milliseconds of a position vector timestamp at the (millisecond resolution) local time.
+
+        Timestamps are compared with the wrap-around aware order of TST (annex C.2): a timestamp that
+        is ahead of the local clock (sender clock running slightly ahead) has age 0 instead of an age
+        of almost 2^32 ms.
+        """
+        if tst > current_time:
+            return 0
+        return current_time - tst
 
     def new_shb_packet(
         self, position_vector: LongPositionVector, packet: bytes
